@@ -487,3 +487,10 @@ def lns_nan_source_with_payload(c):
     n = cfg_ints(c)[0]
     i = ints(c['impl'])
     return x != x and len(i) == 1 and i[0] != (1 << (n - 1)) + (1 << (n - 2))
+
+
+@pred
+def cfloat_add_wide(c):
+    """cfloat add/sub whose ADD blocktriple (fbits + 6 bits) exceeds 64 bits: the non-rounding branch of convert()"""
+    n, es, sub, sup, sat, fb = _cf(c)
+    return fb + 6 > 64
